@@ -105,6 +105,18 @@ func c05rename(g, k string) string {
 	case "fresh":
 		return k + "'"
 	}
+	// funnel:<first>:<penultimate>:<last> — every key except the last two is renamed onto <first>, the
+	// penultimate onto <last> (many colliding renames inside one Range, then a rename onto a later key)
+	if strings.HasPrefix(g, "funnel:") {
+		p := strings.Split(g, ":")
+		switch k {
+		case p[3]:
+			return k
+		case p[2]:
+			return p[3]
+		}
+		return p[1]
+	}
 	panic("bad g")
 }
 
@@ -844,6 +856,12 @@ func c05long[V any](w *report.W, im c05impl[V], maxN int) {
 						{Kind: "delete", A: "absent"},
 						{Kind: "rangerename", A: "fresh"},
 						{Kind: "rangerename", A: "identity"},
+						{Kind: "rangerename", A: "constA"},
+					}
+					if len(model.ents) >= 3 {
+						pen := model.ents[len(model.ents)-2].k
+						singles = append(singles, c05op{Kind: "rangerename", A: "funnel:" + first + ":" + pen + ":" + last})
+						// the same funnel followed by ordinary operations (the map must still behave)
 					}
 					for si := -1; si < len(singles); si++ {
 						h := hist
